@@ -4,7 +4,7 @@ import PoxModel.Proofs.TcpOpts
 `parse (pack p)` is `p` with the computed fields filled in, and packing that again gives the same bytes.  Core only.
 -/
 namespace Pox.Packet
-open Pox Pox.Layout Pox.Checksum
+open Pox Pox.PktLayout Pox.Checksum
 
 /-- which class a built object is (a bytes payload has none) -/
 def kindOf : Pkt → Option Kind
